@@ -15,8 +15,8 @@ Section Compose.
   Variable c : cfg (F:=F).
   Variable dims : nat -> list nat.          (* shape of block b *)
 
-  Definition obstate := Optimizer.bstate (F:=F).
-  Definition ovalue := list F.
+  Local Notation obstate := (Optimizer.bstate (F:=F)).
+  Local Notation ovalue := (list F).
   (* what one block receives at one step: gradient, the group's float32 scalars of that step, the oracle's answers *)
   Definition ograd : Type := (list F * hints (F:=F) * list (list (list F)))%type.
 
@@ -50,3 +50,28 @@ Section Compose.
     | (hh, ins) :: rest => let '(t', bs', _) := group_step Op c hh t bs ins in model_run rest t' bs'
     end.
 End Compose.
+
+(* ---- the same composition for cluster models whose gradient type is the bare gradient (Fsdp.v, FullyShard.v): the
+   group's float32 scalars are a function of the step count, the oracle's answers a function of (block, step count) *)
+Section ComposeFn.
+  Context {F : Type} (Op : ops F).
+  Variable c : cfg (F:=F).
+  Variable dims : nat -> list nat.
+  Variable hh : Z -> hints (F:=F).
+  Variable ans : nat -> Z -> list (list (list F)).
+
+  Definition fn_upd (b : nat) (k : Z) (st : Optimizer.bstate (F:=F)) (v : list F) (g : list F) : Optimizer.bstate (F:=F) * list F :=
+    let '(w', st', _) := block_step Op c k (hh k) (dims b) (ans b k) v st g in (st', w').
+
+  Definition fn_ins (nb : nat) (k : Z) (e : entry (list F)) : list (binput (F:=F)) :=
+    tab nb (fun b => match nth_error e b with
+                     | Some (Some g) => mkI (Some g) (ans b k)
+                     | _ => mkI None []
+                     end).
+
+  Fixpoint model_run_fn (nb : nat) (es : list (entry (list F))) (t : Z) (bs : list (block (F:=F))) : Z * list (block (F:=F)) :=
+    match es with
+    | [] => (t, bs)
+    | e :: rest => let '(t', bs', _) := group_step Op c (hh (t + 1)) t bs (fn_ins nb (t + 1) e) in model_run_fn nb rest t' bs'
+    end.
+End ComposeFn.
